@@ -710,7 +710,7 @@ class Timeseries:
         """
         roundTo = tdel.total_seconds()
 
-        seconds = (dt - self.__start_datetime).seconds
+        seconds = (dt - self.__start_datetime).total_seconds()
         # // is a floor division:
         rounding = (seconds + roundTo / 2) // roundTo * roundTo
         return dt + datetime.timedelta(0, rounding - seconds, -dt.microsecond)
